@@ -1,7 +1,7 @@
 (* C14 - base vocabulary shared by the generated table (Gen/UnitTable.v) and the hand-written
    model (Model/Units.v): the unit names and the record of field operations the generated
    flux-conversion terms are written over.  Definitions only. *)
-From Coq Require Export QArith Qcanon Reals.
+From Coq Require Export QArith Qcanon.
 
 (* wavelength units accepted by lentil.radiometry.Unit (canonical names m, um, nm, angstrom) *)
 Inductive wunit := Wm | Wum | Wnm | Wangstrom.
@@ -32,5 +32,5 @@ Notation "- x" := (fopp x) : F_scope.
 
 (* execution instance: canonical rationals (every float is one) *)
 Definition QcF : Fld := mkFld Qc 0%Qc 1%Qc Qcplus Qcmult Qcminus Qcdiv Qcopp Q2Qc.
-(* theorem instance: the real numbers *)
-Definition RF : Fld := mkFld R 0%R 1%R Rplus Rmult Rminus Rdiv Ropp Q2R.
+(* the theorem instance (the real numbers, [RF]) is defined in Proofs/UnitsP.v so that model and
+   extraction files do not load the Reals *)
